@@ -68,6 +68,9 @@ type C18Workload struct {
 	RJReplicas   int  `json:"rj_replicas,omitempty"`
 	Delayed      bool `json:"delayed,omitempty"`
 	GroupSize    int  `json:"group_size,omitempty"`
+	// ScaledDown: the (elastic) job was resized down by this many workers while their pods still exist (terminating / not yet
+	// removed by the training operator): the owner declares fewer Worker replicas than there are indexed worker pods
+	ScaledDown int `json:"scaled_down,omitempty"`
 }
 
 type C18Step struct {
@@ -236,9 +239,10 @@ func c18Build(w *C18Workload) *c18Built {
 		if masters > 0 {
 			specs[mName] = map[string]any{"replicas": i64(masters)}
 		}
-		specs[wName] = map[string]any{"replicas": i64(workers)}
+		declared := max(1, workers-w.ScaledDown)
+		specs[wName] = map[string]any{"replicas": i64(declared)}
 		spec := map[string]any{field: specs}
-		want := int32(masters + workers)
+		want := int32(masters + declared)
 		if w.ElasticMin > 0 && kind == "PyTorchJob" {
 			spec["elasticPolicy"] = map[string]any{"minReplicas": i64(w.ElasticMin)}
 			want = int32(w.ElasticMin)
